@@ -332,11 +332,8 @@ Proof.
     unfold kitty_supported. destruct (name_is (fst nv) "iterm2"); reflexivity. }
   split; [unfold get_fg_bg; now rewrite two_phase_disabled|].
   split; [apply Hnv|]. split.
-  { unfold get_cell_size. destruct c0 as [[[c1 c2] cw] ch].
-    destruct ((ws_cols cfg =? c1) && (ws_rows cfg =? c2)); [reflexivity|].
-    destruct (ioctl_ok cfg && negb (has_zero (if ioctl_ok cfg then (ws_xpix cfg, ws_ypix cfg) else (0, 0)))).
-    - destruct ((ws_cols cfg =? 0) || (ws_rows cfg =? 0)); reflexivity.
-    - rewrite query_disabled. reflexivity. }
+  { unfold get_cell_size. destruct (cell_query_needed cfg c0); [|reflexivity].
+    rewrite query_disabled. reflexivity. }
   destruct Hk as [Hk1 Hk2]. split; [exact Hk1|]. split; [exact Hk2|].
   unfold auto_image_class.
   destruct (kitty_is_supported cost cfg term (st, memo)) as [k w1]. cbn [fst snd] in *. subst k.
@@ -404,14 +401,12 @@ Proof.
       rewrite E2. eexists _, _; split; [reflexivity|]. cbn [fst snd].
       split; [|split; [congruence|lia]].
       unfold kitty_supported. rewrite Ei. reflexivity.
-  - unfold get_cell_size. destruct c0 as [[[c1 c2] cw] ch].
-    destruct ((ws_cols cfg =? c1) && (ws_rows cfg =? c2)); [split; [exact Hp|lia]|].
-    destruct (ioctl_ok cfg && negb (has_zero (if ioctl_ok cfg then (ws_xpix cfg, ws_ypix cfg) else (0, 0)))).
-    + destruct ((ws_cols cfg =? 0) || (ws_rows cfg =? 0)); (split; [exact Hp|lia]).
+  - unfold get_cell_size. destruct (cell_query_needed cfg c0).
     + destruct (query_silent cost c cost_bounded cfg silent Hen more_not_c
                   (CELL_SIZE_PX_q ++ TEXT_AREA_SIZE_PX_q ++ DA1_q) st)
         as (st2 & E2 & Hp2 & _ & Hn2); auto; [rewrite Hp; constructor|].
-      rewrite E2. cbv beta iota. split; [congruence|lia].
+      rewrite E2. destruct (cell_of_response cfg c0 (Some [])). split; [congruence|lia].
+    + destruct (cell_of_response cfg c0 None). split; [exact Hp|lia].
 Qed.
 
 End Silent.
